@@ -18,12 +18,12 @@ def _exact(*names):
 
 
 # finding id -> obligations it covers (exact names); the companions `<name>[outside the regions of the recorded findings]` never match
-# (refuted there = VIOLATION).  A v2 page under a mask breaks all three cursors, a page with nulls the mask cursor and its windows, a page
-# without a selected row the output cursor and the mask cursor.
+# (refuted there = VIOLATION).  The invariant obligations are posed per kind of the arbitrary page: only the [v2 page] ones belong to the
+# open finding (the v2 reader gets the whole mask, num advances by num_values, index_off is not advanced); the [v1 page] ones are plain
+# obligations (both v1 defects repaired in /repo e953da1: fixed-C13-v1-mask-cursor-rows-of-page, fixed-C13-v1-page-without-selected-rows).
 KNOWN = [
-    ("C13-P-v2-reader-gets-whole-mask-without-offset", _exact("data_page_v2.callsite.page_window_of_the_mask_is_identified", _CUR)),
-    ("C13-P-v1-mask-cursor-advances-by-non-null-count", _exact("mask.window_is_the_rows_of_the_page", "mask.page_skipped_only_if_no_row_selected", _OFF)),
-    ("C13-P-v1-page-without-selected-rows", _exact(_NUM)),
+    ("C13-P-v2-reader-gets-whole-mask-without-offset",
+     _exact("data_page_v2.callsite.page_window_of_the_mask_is_identified", _CUR + "[v2 page]", _NUM + "[v2 page]", _OFF + "[v2 page]")),
 ]
 
 
